@@ -41,9 +41,9 @@ type c13Ext struct {
 var c13Exts = []c13Ext{{false, 0, 0}, {true, 0, 0}, {true, 1, 0}, {true, 0, 1}, {true, 2, 1}}
 
 func c13Sizes(mtu int, k int) []int {
-	cands := []int{0, 1, 2, mtu - 3, mtu - 2, mtu - 1, mtu, mtu + 1, 2 * mtu, 126, 127, 128, 129}
+	cands := []int{0, 1, 2, mtu - 3, mtu - 2, mtu - 1, mtu, mtu + 1, 2 * mtu, 2*mtu - 5, 2*mtu - 4, 2*mtu - 3, 126, 127, 128, 129}
 	if k == 1 {
-		cands = []int{0, 1, mtu - 2, 2*mtu + 1}
+		cands = []int{0, 1, mtu - 2, 2*mtu - 4, 2*mtu + 1}
 	} else if k >= 2 {
 		cands = []int{0, mtu - 2, mtu + 1}
 		if k >= 3 {
